@@ -1544,7 +1544,12 @@ class FileBuilder:
                 else:
                     self._make_room(absolute_subfile, make_room_filename)
                     error = False
-            elif self._simple_operation_executor.is_file(absolute_subfile):
+            elif (self._simple_operation_executor.is_file(absolute_subfile) or
+                    # A file another thread is building right now is not a
+                    # leftover output file, even though it doesn't exist
+                    # virtually
+                    self._new_cache.has_norm_cased_file(
+                        os.path.normcase(absolute_subfile))):
                 error = True
             else:
                 if self._backups.back_up_and_remove(absolute_subfile):
